@@ -873,7 +873,7 @@ func MainHostile(args []string) int {
 		if cerr == nil && len(evs) > 0 && evs[len(evs)-1]["op"] == "Close" && evs[len(evs)-1]["err"] == "nil" {
 			nSurv++
 			// a survivor: is what was read the canonical decoding? ask the reference codec (budgeted, small ones)
-			if nJobs < *survivors && decl <= 3000 && decl >= 0 {
+			if nJobs < *survivors && decl <= 3000 && decl >= 0 && len(stream) >= hdr {
 				nJobs++
 				meta["canonJob"] = nJobs
 				j := map[string]interface{}{"id": nJobs, "kind": "dec", "payload": ints(stream[hdr:]), "size": decl, "limit": decl + 10, "expect": ints(got)}
